@@ -5,11 +5,12 @@ SQ = "internal/app/subsystems/aio/store/sqlite"
 PG = "internal/app/subsystems/aio/store/postgres"
 CO = "internal/app/coroutines"
 
+STORE_T = {"slots.promises": 4, "slots.callbacks": 4, "slots.schedules": 3, "slots.locks": 3, "slots.tasks": 5}
 def both(names, **kw):
     out = []
     for n in names:
         for pkg in (SQ, PG):
-            d = {"name": n, "pkg": pkg, "reach": ["done"]}
+            d = {"name": n, "pkg": pkg, "reach": ["done"], "opts_thorough": dict(STORE_T)}
             d.update(kw)
             out.append(d)
     return out
